@@ -155,13 +155,18 @@ class Ctx:
         self.notes = []
         self.t0 = time.time()
         self.workers = int(os.environ.get("VERIF_WORKERS", "16"))
+        self.boost = 1
+        self.changed_files = []
 
     # --- generation helpers
     def rng(self, name=""):
         return random.Random("%s:%s:%s" % (self.pid, self.seed, name))
 
     def budget(self, quick, thorough):
-        return quick if self.tier == "quick" else thorough
+        """Case budget of a stream.  Multiplied by `boost` (> 1 only when a source file anchored by
+        this property differs from the fingerprinted tree, DESIGN.md 5.6)."""
+        n = quick if self.tier == "quick" else thorough
+        return int(n * self.boost)
 
     def elapsed(self):
         return time.time() - self.t0
@@ -299,6 +304,28 @@ def leanchecker(modules):
 
 # ------------------------------------------------------------------------------------------------
 
+def changed_anchor_files(pid):
+    """Anchored source files of the property whose normalised AST differs from fingerprints.json."""
+    sys.path.insert(0, os.path.join(ROOT, "tools"))
+    try:
+        import fingerprint as fp
+        anchors = []
+        for line in open(os.path.join(ROOT, "properties.jsonl")):
+            rec = json.loads(line)
+            if rec["id"] == pid:
+                anchors = rec["anchors"]["files"]
+        want = json.load(open(os.path.join(HARNESS, "fingerprints.json")))
+        changed = []
+        for rel in anchors:
+            path = os.path.join(os.path.dirname(REPO_SRC), rel) if rel.startswith("src/") else os.path.join(REPO_SRC, rel)
+            cur = fp.fingerprint(path) if os.path.exists(path) else "missing"
+            if want.get(rel) != cur:
+                changed.append(rel)
+        return changed
+    except Exception as e:  # never fatal
+        return ["<fingerprints unavailable: %r>" % (e,)]
+
+
 def load_known():
     """known_findings.json (committed; never written at run time).  `findings/*.json` are the
     per-family files builders work on before they are merged into it."""
@@ -414,6 +441,10 @@ def run_check(ctx, mod, args, t0):
     # 2.-5. corpus, correspondence, end-to-end (module) -----------------------------------------
     if ctx.driver.ask1("ping") != "pong":
         raise InfraError("driver does not answer ping")
+    ctx.changed_files = changed_anchor_files(pid)
+    if ctx.changed_files:
+        ctx.boost = int(os.environ.get("VERIF_BOOST", "3"))
+        ctx.note("anchored files differ from the fingerprinted tree: budgets x%d" % ctx.boost)
     mod.run(ctx)
     # 6. decision ---------------------------------------------------------------------------------
     known = [k for k in load_known() if k.get("property") == pid]
@@ -462,6 +493,7 @@ def run_check(ctx, mod, args, t0):
         "stats": ctx.stats, "driver_lines": ctx.driver.lines,
         "divergences": len(ctx.divergences), "proof_gaps": ctx.proof_gaps,
         "known_findings_seen": seen_known, "notes": ctx.notes,
+        "fingerprints_changed": ctx.changed_files,
         "explanation": getattr(mod, "EXPLANATION", ""),
     }
     ev = {"property_id": pid, "tier": ctx.tier, "seed": ctx.seed, "level": level, "coverage": cov,
